@@ -136,6 +136,27 @@ Theorem C10_source_tie_rotation_to_angles :
 Proof. exact (conj tie_rotation2DToEulerAngle tie_rotation3DToEulerAngles). Qed.
 Print Assumptions C10_source_tie_rotation_to_angles.
 
+(* polar / spherical maps: every overload (scalar, Cartesian point, homogeneous point) of PolarTransform /
+   SphericalTransform, regenerated from the source, is the model function of the round-trip theorems below — for every
+   numeric dictionary.  In particular the homogeneous overloads measure the range over the Cartesian part only. *)
+From Romea Require Import SrcTiePolar.
+Theorem C10_source_tie_polar : forall (T : Type) (N : NumOps T) (x y r az : T),
+  (toPolar N x y = (src_polarRange N x y, src_polarAzimut N x y) /\
+   toPolar N x y = (src_polarRangeCartesian N x y, src_polarAzimutCartesian N x y) /\
+   toPolar N x y = (src_polarRangeHomogeneous N x y, src_polarAzimutHomogeneous N x y)) /\
+  polarToCartesian N r az = (src_polarX N r az, src_polarY N r az).
+Proof. intros T N x y r az. exact (conj (tie_toPolar N x y) (tie_polarToCartesian N r az)). Qed.
+Print Assumptions C10_source_tie_polar.
+
+Theorem C10_source_tie_spherical : forall (T : Type) (N : NumOps T),
+  (forall r az el, sphericalToCartesian N r az el = mkV3 (src_sphX N r az el) (src_sphY N r az el) (src_sphZ N r el)) /\
+  (forall x y z r az el, toSpherical N x y z = Some (r, az, el) ->
+     r = src_sphRange N x y z /\ az = src_sphAzimut N x y /\ el = src_sphElevation N z (src_sphRange N x y z) /\
+     r = src_sphRangeCartesian N x y z /\ el = src_sphElevationCartesian N x y z /\
+     r = src_sphRangeHomogeneous N x y z /\ el = src_sphElevationHomogeneous N x y z).
+Proof. intros T N. exact (conj (tie_sphericalToCartesian N) (tie_toSpherical N)). Qed.
+Print Assumptions C10_source_tie_spherical.
+
 (* ====================================================================================================================
    FLOATING POINT (IEEE-754 binary64), sentence "angle normalisers return a value congruent to their input modulo 2*pi
    inside their advertised interval".  The SAME model functions, instantiated at the rounded dictionary B64Ops
